@@ -208,6 +208,29 @@ def expect(rec):
     return e
 
 
+def fake_real(e):
+    """the run record a real run would give if it behaved exactly as the expectation e says (used by the self-test and
+    to pass the exact model's behaviours through TraceSimplex: independent of the code under test)"""
+    if e["oos"]:
+        raise ValueError("no complete behaviour")
+    n = e["n"]
+    ret = e["ret_asis"]
+    S = [list(p) for p in e["final"]["S"]]
+    return {"evals": [(list(p), v) for p, v in e["evals"]], "calls": [[]] + [list(c) for c in e["calls"]], "error": None,
+            "n_init_evals": n + 1, "snaps": [dict(s) for s in e["snaps"]],
+            "ret": (list(ret[0]), ret[1], ret[2]), "ret_is_guess": True,
+            "final": {"S": S, "E": list(e["final"]["E"]), "G": list(ret[0]), "cur": ret[1], "lo": None,
+                      "hi": e["final"]["hi"], "sh": e["final"]["sh"]},
+            "guess_obj": list(ret[0]), "inc_after": list(e["inc"])}
+
+
+def model_return_is_best(rec):
+    """ReturnIsBest evaluated on the record of the model of the code as it is"""
+    n = rec["n"]
+    x, err = rec["ret"]["x"], rec["ret"]["err"]
+    return err == min(rec["E"]) and any(rec["S"][v] == x and rec["E"][v] == err for v in range(n + 1))
+
+
 def case_key(rec):
     return (rec["K"], rec["fn"], rec["n"], tuple(rec["x0"]), tuple(rec["inc"]), rec["eps"]["kind"], rec["eps"]["en"],
             rec["eps"]["ek"], rec["maxit"], tuple(rec["kk"]))
@@ -283,10 +306,15 @@ def judge(rec, real, exp=None):
     if (not e["oos"] and len(gs) != len(ws)) or len(gs) < len(ws):
         fails.append(("passes", "%d passes started, model predicts %d" % (len(gs), len(ws))))
     for k in range(min(len(ws), len(gs))):
-        for fld in ("hi", "lo", "sh", "E", "S", "G", "cur"):
+        for fld in ("hi", "lo", "E", "S", "G", "cur"):
             if gs[k][fld] != ws[k][fld]:
                 fails.append(("pass %d" % k, "%s = %r at the monitor test, model: %r" % (fld, gs[k][fld], ws[k][fld])))
                 break
+        else:
+            # of secondhighest only the value is used by the code: the index may differ among tied vertices
+            sh = gs[k]["sh"]
+            if not (isinstance(sh, int) and 0 <= sh <= n) or gs[k]["E"][sh] != ws[k]["E"][ws[k]["sh"]]:
+                fails.append(("pass %d" % k, "secondhighest = %r at the monitor test, model: %r (values %r)" % (sh, ws[k]["sh"], ws[k]["E"])))
     gc = real["calls"][1:]
     if real["calls"] and real["calls"][0]:
         fails.append(("calls", "helper methods called before the first pass: %r" % (real["calls"][0],)))
@@ -310,7 +338,7 @@ def judge(rec, real, exp=None):
     verdict = None
     if not e["oos"]:
         f = real["final"]
-        for fld in ("S", "E", "hi", "sh"):
+        for fld in ("S", "E", "hi"):
             if f[fld] != e["final"][fld]:
                 fails.append(("final", "%s = %r after minimize, model: %r" % (fld, f[fld], e["final"][fld])))
         r = real["ret"]
@@ -320,7 +348,11 @@ def judge(rec, real, exp=None):
             fails.append(("return", "returned pair %r is not what is left in guess / currenterror %r" % ((r[0], r[1]), (f["G"], f["cur"]))))
         if real["inc_after"] != e["inc"]:
             fails.append(("return", "the increments list was modified: %r" % (real["inc_after"],)))
-        if (r[0], r[1]) == (e["ret_best"][0], e["ret_best"][1]):
+        # ReturnIsBest by its definition (any vertex carrying the smallest stored value; among tied vertices the
+        # code as it is and the patched code may pick different ones)
+        fe = e["final"]
+        law = r[1] == min(fe["E"]) and any(fe["S"][v] == r[0] and fe["E"][v] == r[1] for v in range(n + 1))
+        if law:
             verdict = "best"
         elif (r[0], r[1]) == (e["ret_asis"][0], e["ret_asis"][1]):
             verdict = "asis"
